@@ -267,6 +267,8 @@ func (g *GenCtx) Gen(d *Desc, v reflect.Value, ft string) {
 			return
 		}
 		g.genDict(v)
+	case KDict: // hm_edge: at least one entry
+		g.genDictInto(v, 1)
 	case KOpaque:
 		// a few unmodelled codecs whose zero value is outside their domain get a minimal in-domain value
 		switch baseName(v.Type()) {
